@@ -25,6 +25,16 @@ class Table:
         self.arms = {}
         for f in facts:
             self.arms.setdefault(f["arm"], []).append(f)
+        # `(A, A) | (B, B) => ..` is one arm for two variants: its facts hold for each of them (so merging or splitting arms of
+        # identical bodies does not change any lookup)
+        for name in list(self.arms):
+            if "|" in name:
+                for part in name.split("|"):
+                    if part not in self.arms:
+                        self.arms[part] = self.arms[name]
+        for name in ("Trait|FnClosure",):
+            if name not in self.arms and all(p in self.arms for p in name.split("|")):
+                self.arms[name] = [dict(f, arm=name) for p in name.split("|") for f in self.arms[p]]
 
     def neq(self, arm, path):
         """is there, on every alternative that can produce the accepting result, a comparison of the two operands' `path`
@@ -152,14 +162,14 @@ DIFF_LITERAL_REJECT = ["Undefined", "<top>"]
 DIFF_FORBIDDEN = ("dbg_name", "size", "alignment", "offset", "has_explicit_repr")
 
 
-@rule("Q1", ["C05", "C13"], floor=30, doc="diff_schema compares every wire-relevant fact of each schema variant with a "
+@rule("Q1", ["C05", "C13", "C15"], floor=30, doc="diff_schema compares every wire-relevant fact of each schema variant with a "
       "difference-reporting result, recurses into every nested schema, rejects mismatched variants, and never lets "
       "names / memory-layout annotations influence the result")
 def q1(facts, tier):
     f, tab, ex = extract(facts, "savefile::diff_schema", "some")
     if f is None:
         return
-    props = ["C05", "C13"]
+    props = ["C05", "C13", "C15"]
     for arm, req in sorted(DIFF_REQUIRED.items()):
         for p in req.get("neq", []):
             ok = tab.neq(arm, p)
@@ -185,6 +195,11 @@ def q1(facts, tier):
     ok = tab.literal_only("<top>", True) or any(x["kind"] == "literal" and x["reject"] for x in tab.arms.get("<top>", []))
     yield ob(props, "Q1", "fallback:literal-differs", "pass" if ok else "violation", where(f),
              "diff_schema: schemas of different variants " + ("are reported as different" if ok else "are NOT reported as different"))
+    cross = sorted({pr for fs in tab.arms.values() for x in fs if x["kind"] == "cross-variant-arm" for pr in x["pairs"]})
+    yield ob(props, "Q1", "no-cross-variant-arm", "violation" if cross else "pass", where(f),
+             (f"a diff_schema arm matches operands of different variants ({', '.join(cross[:4])}) and compares only their payloads: "
+              "a value that changed from one wrapping to the other (e.g. a borrowed to an owned trait object) is reported as unchanged") if cross
+             else "every arm that can report 'no difference' matches the same variant on both sides")
     short = [x for fs in tab.arms.values() for x in fs if x["kind"] == "one-sided-shortcut"]
     yield ob(props, "Q1", "no-one-sided-shortcut", "violation" if short else "pass", where(f),
              ("diff_schema skips the remaining comparisons on a condition that looks at one operand only (" +
@@ -197,7 +212,7 @@ def q1(facts, tier):
               ", and thereby skips the comparison of exactly that fact: two schemas that differ only there compare as identical") if skip
              else "every accepting shortcut is taken on a condition that covers, on both operands, every fact whose comparison it skips")
     lr = [x for fs in tab.arms.values() for x in fs if x["kind"] == "loop-return"]
-    yield ob(props + ["C15"], "Q1", "no-undetermined-return-inside-a-loop", "violation" if lr else "pass", where(f),
+    yield ob(props, "Q1", "no-undetermined-return-inside-a-loop", "violation" if lr else "pass", where(f),
              ("inside a loop over elements (arm " + ", ".join(sorted({x['arm'] for x in lr})) + ") the function returns the result of a nested "
               "comparison as it is: when that comparison finds no difference, the remaining elements (methods, fields, variants) are never "
               "compared") if lr else "inside loops only definite differences are returned")
